@@ -3,13 +3,17 @@
  * same way.  usage: dbg_probe <scriptfile>
  * Script lines:   L <n>          libast_debug_level = n
  *                 S <0|1>        libast_set_silent(flag)              -> "S <flag> <returned>"
+ *                 Y <statement>  as X, but one earlier write on stderr has FAILED in that child (fd 2 pointed at a full non-blocking
+ *                                pipe for one fputs(), then fd 2 is restored; clearerr() is NOT called): history must not matter
  *                 X <statement>  run the statement in a forked child with fd 2 captured
  *                                -> "X <statement> out=<none|debug|warning|error|fatal> eval=<n> ctl=<falls|returns|exits|signal:N>
  *                                    val=<n> status=<n> bytes=<n> text=<0|1>"
  *   eval  = how often the argument expression (message argument / asserted condition) was evaluated
  *   ctl   = fell through the statement / the enclosing function returned at the statement / the process ended
  *   val   = value returned by the enclosing function (7 = the stated failure value, 1000 = fell through)
- *   bytes = bytes written to the stream; text = the statement's own message is among them
+ *   bytes = bytes written to the stream; text = the statement's own message is among them - for ASSERT/REQUIRE the marker
+ *           AND the text of the failed expression verbatim (the _pct probes use expressions containing "% s" and "%d")
+ *   ferr  = (Y only) the failed write did set the stream's error indicator, i.e. the history was really provoked
  */
 #include <config.h>
 #include <libast.h>
@@ -27,6 +31,8 @@ static int fell;
 static int bump(void) { counter++; return 42; }
 static int cond_fail(void) { counter++; return 0; }
 static int cond_hold(void) { counter++; return 1; }
+static int pct_fail(int a, int b) { counter++; (void) a; (void) b; return 0; }
+static int total = 7, s = 4, n = 9, d = 2;       /* names chosen so that the expression text reads like printf conversions */
 
 #define GATED(name) static int f_##name(void) { name(("PAYLOAD %d\n", bump())); return 1000; }
 GATED(D_OPTIONS) GATED(D_OBJ) GATED(D_CONF) GATED(D_MEM) GATED(D_STRINGS) GATED(D_PARSE)
@@ -44,36 +50,66 @@ static int f_ASSERT_RVAL_hold(void) { ASSERT_RVAL(cond_hold(), 7); return 1000; 
 static int f_ASSERT_RVAL_fail(void) { ASSERT_RVAL(cond_fail(), 7); return 1000; }
 static int f_REQUIRE_RVAL_hold(void) { REQUIRE_RVAL(cond_hold(), 7); return 1000; }
 static int f_REQUIRE_RVAL_fail(void) { REQUIRE_RVAL(cond_fail(), 7); return 1000; }
+static void v_ASSERT_fail_pct(void) { ASSERT(pct_fail(total % s, n %d)); fell = 1; }
+static void v_REQUIRE_fail_pct(void) { REQUIRE(pct_fail(total % s, n %d)); fell = 1; }
+static int f_ASSERT_fail_pct(void) { fell = 0; v_ASSERT_fail_pct(); return fell ? 1000 : 7; }
+static int f_REQUIRE_fail_pct(void) { fell = 0; v_REQUIRE_fail_pct(); return fell ? 1000 : 7; }
+static int f_ASSERT_RVAL_fail_pct(void) { ASSERT_RVAL(pct_fail(total % s, n %d), 7); return 1000; }
+static int f_REQUIRE_RVAL_fail_pct(void) { REQUIRE_RVAL(pct_fail(total % s, n %d), 7); return 1000; }
 static int f_print_warning(void) { libast_print_warning("PAYLOAD %d\n", bump()); return 1000; }
 static int f_print_error(void) { libast_print_error("PAYLOAD %d\n", bump()); return 1000; }
 static int f_dprintf(void) { libast_dprintf("PAYLOAD %d\n", bump()); return 1000; }
 static int f_fatal_error(void) { libast_fatal_error("PAYLOAD %d\n", bump()); return 1000; }
 
-static struct { const char *name; int (*fn)(void); const char *text; } T[] = {
-#define E(n, t) { #n, f_##n, t }
+static struct { const char *name; int (*fn)(void); const char *text; const char *expr; } T[] = {
+#define E(n, t) { #n, f_##n, t, NULL }
+#define X(n, t, e) { #n, f_##n, t, e }
     E(D_OPTIONS, "PAYLOAD 42"), E(D_OBJ, "PAYLOAD 42"), E(D_CONF, "PAYLOAD 42"), E(D_MEM, "PAYLOAD 42"), E(D_STRINGS, "PAYLOAD 42"), E(D_PARSE, "PAYLOAD 42"),
     E(DPRINTF1, "PAYLOAD 42"), E(DPRINTF2, "PAYLOAD 42"), E(DPRINTF3, "PAYLOAD 42"), E(DPRINTF4, "PAYLOAD 42"), E(DPRINTF5, "PAYLOAD 42"), E(DPRINTF6, "PAYLOAD 42"),
-    E(ASSERT_hold, "ASSERT failed"), E(ASSERT_fail, "ASSERT failed"), E(ASSERT_RVAL_hold, "ASSERT failed"), E(ASSERT_RVAL_fail, "ASSERT failed"),
-    E(REQUIRE_hold, "REQUIRE failed"), E(REQUIRE_fail, "REQUIRE failed"), E(REQUIRE_RVAL_hold, "REQUIRE failed"), E(REQUIRE_RVAL_fail, "REQUIRE failed"),
+    X(ASSERT_hold, "ASSERT failed", "cond_hold()"), X(ASSERT_fail, "ASSERT failed", "cond_fail()"),
+    X(ASSERT_RVAL_hold, "ASSERT failed", "cond_hold()"), X(ASSERT_RVAL_fail, "ASSERT failed", "cond_fail()"),
+    X(REQUIRE_hold, "REQUIRE failed", "cond_hold()"), X(REQUIRE_fail, "REQUIRE failed", "cond_fail()"),
+    X(REQUIRE_RVAL_hold, "REQUIRE failed", "cond_hold()"), X(REQUIRE_RVAL_fail, "REQUIRE failed", "cond_fail()"),
+    X(ASSERT_fail_pct, "ASSERT failed", "pct_fail(total % s, n %d)"), X(ASSERT_RVAL_fail_pct, "ASSERT failed", "pct_fail(total % s, n %d)"),
+    X(REQUIRE_fail_pct, "REQUIRE failed", "pct_fail(total % s, n %d)"), X(REQUIRE_RVAL_fail_pct, "REQUIRE failed", "pct_fail(total % s, n %d)"),
     E(print_warning, "PAYLOAD 42"), E(print_error, "PAYLOAD 42"), E(dprintf, "PAYLOAD 42"), E(fatal_error, "PAYLOAD 42"),
     { NULL, NULL, NULL }
 };
 
-static void run_cell(int k) {
+#include <fcntl.h>
+#include <errno.h>
+/* child side: make exactly one write on stderr fail (EAGAIN on a full non-blocking pipe), then give fd 2 back */
+static int provoke_failed_write(int capture_fd) {
+    int p[2], fl; char fill[4096];
+    if (pipe(p)) return 0;
+    fl = fcntl(p[1], F_GETFL); fcntl(p[1], F_SETFL, fl | O_NONBLOCK);
+    memset(fill, 'f', sizeof(fill));
+    while (write(p[1], fill, sizeof(fill)) > 0) ;
+    while (write(p[1], fill, 1) > 0) ;
+    dup2(p[1], 2);
+    fputs("this write fails\n", stderr); fflush(stderr);
+    dup2(capture_fd, 2);
+    close(p[0]); close(p[1]);
+    return ferror(stderr) != 0;
+}
+
+static void run_cell(int k, int hist) {
     int ep[2], rp[2], status = 0, res[2] = { -1, -1 }, got = 0;
     static char buf[1 << 16], tmp[1 << 16]; size_t n = 0, total = 0; ssize_t c; pid_t pid;
     const char *cls, *ctl; char sig[32];
     if (pipe(ep) || pipe(rp)) { perror("pipe"); exit(2); }
     fflush(stdout);
-    counter = 0;
+    counter = 0; shared[1] = 0;
     pid = fork();
     if (pid < 0) { perror("fork"); exit(2); }
     if (pid == 0) {
         int v;
         close(ep[0]); close(rp[0]);
-        dup2(ep[1], 2); close(ep[1]);
+        dup2(ep[1], 2);
         setvbuf(stderr, NULL, _IONBF, 0);
         alarm(10);
+        if (hist) shared[1] = provoke_failed_write(ep[1]);
+        close(ep[1]);
         v = T[k].fn();
         fflush(stderr);
         res[0] = v; res[1] = 0;
@@ -99,9 +135,9 @@ static void run_cell(int k) {
     if (WIFSIGNALED(status)) { snprintf(sig, sizeof(sig), "signal:%d", WTERMSIG(status)); ctl = sig; }
     else if (!got) ctl = "exits";
     else ctl = (res[0] == 1000) ? "falls" : "returns";
-    printf("X %s out=%s eval=%d ctl=%s val=%d status=%d bytes=%lu text=%d\n", T[k].name, cls,
+    printf("%c %s out=%s eval=%d ctl=%s val=%d status=%d bytes=%lu text=%d ferr=%d\n", hist ? 'Y' : 'X', T[k].name, cls,
            counter, ctl, got ? res[0] : -1, WIFEXITED(status) ? WEXITSTATUS(status) : -1, (unsigned long) total,
-           strstr(buf, T[k].text) != NULL);
+           strstr(buf, T[k].text) != NULL && (!T[k].expr || strstr(buf, T[k].expr) != NULL), shared[1]);
 }
 
 int main(int argc, char **argv) {
@@ -121,10 +157,10 @@ int main(int argc, char **argv) {
         int k;
         if (line[0] == 'L') { libast_debug_level = (unsigned) atoi(line + 2); printf("L %u\n", libast_debug_level); }
         else if (line[0] == 'S') { int b = atoi(line + 2); printf("S %d %d\n", b, (int) libast_set_silent(b ? TRUE : FALSE)); }
-        else if (line[0] == 'X') {
+        else if (line[0] == 'X' || line[0] == 'Y') {
             for (k = 0; T[k].name && strcmp(T[k].name, line + 2); k++) ;
             if (!T[k].name) { printf("X %s unknown\n", line + 2); continue; }
-            run_cell(k);
+            run_cell(k, line[0] == 'Y');
         }
     }
     free(text);
